@@ -10,7 +10,7 @@ from __future__ import annotations
 import ast
 import itertools
 
-from .model import Undecided, unparse
+from .model import LooseEquality, Undecided, unparse
 
 
 def weak_orderings(symbols):
@@ -131,7 +131,8 @@ class Const(P):
 
 _OPMAP = {ast.Lt: "<", ast.LtE: "<=", ast.Eq: "==", ast.NotEq: "!=", ast.Gt: ">", ast.GtE: ">="}
 
-EQ_FUNCS = {"fpe_equals", "isclose"}
+EQ_FUNCS = {"fpe_equals"}
+LOOSE_EQ_FUNCS = {"isclose", "allclose", "approx"}
 
 
 def from_ast(node, symf, eq_funcs=EQ_FUNCS):
@@ -157,6 +158,12 @@ def from_ast(node, symf, eq_funcs=EQ_FUNCS):
         fn = node.func.attr if isinstance(node.func, ast.Attribute) else getattr(node.func, "id", None)
         if fn in eq_funcs and len(node.args) >= 2:
             return Cmp("==", symf(node.args[0]), symf(node.args[1]))
+        if fn in LOOSE_EQ_FUNCS and len(node.args) >= 2:
+            kws = {k.arg: k.value for k in node.keywords}
+            tight = isinstance(kws.get("rtol", kws.get("rel_tol")), ast.Constant) and kws.get("rtol", kws.get("rel_tol")).value == 0 and isinstance(kws.get("atol", kws.get("abs_tol")), ast.Constant) and kws.get("atol", kws.get("abs_tol")).value <= 1e-12
+            if tight:
+                return Cmp("==", symf(node.args[0]), symf(node.args[1]))
+            raise LooseEquality(f"`{unparse(node)}` compares with a relative / wide tolerance (numpy.isclose: |a - b| <= 1e-8 + 1e-5 |b|): at a scenario time of 2e5 s everything within 2 s counts as equal, so an interval end or an event time is hit a whole step early", node)
     if isinstance(node, ast.Constant) and isinstance(node.value, bool):
         return Const(node.value)
     raise Undecided(f"not a comparison-only predicate: {unparse(node)}", node)
